@@ -35,9 +35,12 @@ VARIABLES l, pre, cur, ev,
           base,       \* history: per agent, [key, tally, cnt] = selected pair (l,r), harness tallies and that pair's counters when it became selected
           defv,       \* history: per agent, {<<l, r>>} = pairs on which a valued nomination arrived while the pair was not valid yet and that have not become valid since (the value stays deferred, a later plain USE-CANDIDATE does not erase it)
           pdefv,      \* defv before the last step
+          held,       \* history: per agent, the datagrams (<<pid, len>>) that reached a reader that had stopped reading, in arrival order
+          pheld, pgrace, \* held and grace before the last step
+          grace,      \* history: per agent, the reader stopped while inside Read: the next datagram still goes straight through
           tickTx,     \* history: per agent, {<<gen, l, r, tid>>} = the requests it sent from its own timer (ordinary checks; a triggered check is sent while a datagram is handled)
           txOK        \* history: per agent, transaction ids of its requests whose success response reached it (signed, from the address asked, within the lifetime)
-vars == <<l, pre, cur, ev, idmap, answered, ucAnswered, nomRx, chk, ltc, acc, acked, iss, base, ledger, pled, nomKind, nomTids, nomLost, tickTx, txOK, defv, pdefv>>
+vars == <<l, pre, cur, ev, idmap, answered, ucAnswered, nomRx, chk, ltc, acc, acked, iss, base, ledger, pled, nomKind, nomTids, nomLost, tickTx, txOK, defv, pdefv, held, grace, pheld, pgrace>>
 
 E0 == [a \in Agents |-> {}]
 CountIn(s, x) == Cardinality({k \in 1..Len(s) : s[k] = x})
@@ -58,7 +61,7 @@ Init == /\ l = 2 /\ pre = Tr[1].post /\ cur = Tr[1].post /\ ev = Tr[1]
         /\ answered = E0 /\ ucAnswered = E0 /\ nomRx = E0
         /\ chk = [a \in Agents |-> 0 - 1] /\ ltc = [a \in Agents |-> "Unknown"]
         /\ acc = [a \in Agents |-> NoNom] /\ acked = [a \in Agents |-> 0] /\ iss = NoNom
-        /\ ledger = E0 /\ pled = E0 /\ nomKind = E0 /\ nomTids = {} /\ nomLost = FALSE /\ tickTx = E0 /\ txOK = E0 /\ defv = E0 /\ pdefv = E0
+        /\ ledger = E0 /\ pled = E0 /\ nomKind = E0 /\ nomTids = {} /\ nomLost = FALSE /\ tickTx = E0 /\ txOK = E0 /\ defv = E0 /\ pdefv = E0 /\ held = [a \in Agents |-> <<>>] /\ grace = [a \in Agents |-> FALSE] /\ pheld = [a \in Agents |-> <<>>] /\ pgrace = [a \in Agents |-> FALSE]
         /\ base = [a \in Agents |-> [key |-> <<>>, tally |-> <<0, 0, 0, 0>>, cnt |-> <<0, 0, 0, 0>>]]
 Step == /\ l <= Len(Tr) /\ l' = l + 1 /\ pre' = cur /\ cur' = Tr[l].post /\ ev' = Tr[l]
         /\ LET e == Tr[l]  reset == e.ev = "Reset" IN
@@ -110,7 +113,12 @@ Step == /\ l <= Len(Tr) /\ l' = l + 1 /\ pre' = cur /\ cur' = Tr[l].post /\ ev' 
            /\ nomTids' = IF reset THEN {} ELSE nomTids \cup {x.tid : x \in {y \in NewMsgs(e, cur) : y.kind = "req" /\ y.nom # 0}}
            /\ nomLost' = IF reset THEN FALSE
                          ELSE nomLost \/ (e.ev = "Drop" /\ ((e.m.kind = "req" /\ e.m.nom # 0) \/ (e.m.kind = "succ" /\ e.m.tid \in nomTids)))
-           /\ pled' = ledger /\ pdefv' = defv
+           /\ pled' = ledger /\ pdefv' = defv /\ pheld' = held /\ pgrace' = grace
+           /\ LET toReader(a) == e.ev = "DeliverData" /\ OwnerOfDst(e.d.dst) = a /\ Unwire(e.d.dst) \in Rng(cur[a].locals) /\ KnownIn(cur, a, e.d.src) IN
+              /\ grace' = [a \in Agents |-> IF reset THEN FALSE ELSE IF e.ev = "PauseRead" /\ e.ag = a THEN TRUE
+                                              ELSE IF toReader(a) \/ (e.ev = "ResumeRead" /\ e.ag = a) THEN FALSE ELSE grace[a]]
+              /\ held' = [a \in Agents |-> IF reset \/ (e.ev = "ResumeRead" /\ e.ag = a) THEN <<>>
+                                             ELSE IF toReader(a) /\ cur[a].paused /\ ~grace[a] THEN Append(held[a], <<e.d.pid, e.d.len>>) ELSE held[a]]
            /\ tickTx' = [a \in Agents |->
                  IF reset THEN {}
                  ELSE IF e.ev = "Tick" /\ e.ag = a
@@ -380,10 +388,23 @@ C07_StunShapedConsistent ==
 C07_NoSTUNWrite == (ev.ev = "Write" /\ ev.stun) => (ev.err # "" /\ ev.n = 0 /\ NewData = {} /\ Emitted = {})
 \* the reader gets exactly the non-STUN datagrams delivered from the address of a known remote candidate, once, unmodified
 DataRcv == OwnerOfDst(ev.d.dst)
+\* ... also when the reader falls behind: what it gets when it catches up are datagrams that arrived meanwhile, each once, intact, in
+\* arrival order - all of them if they fit the agent's receive buffer (1 000 000 bytes, two bytes of bookkeeping per datagram)
+RECURSIVE HeldBytes(_)
+HeldBytes(q) == IF q = <<>> THEN 0 ELSE q[1][2] + 2 + HeldBytes(Tail(q))
+RECURSIVE IsSubseq(_, _)     \* r (what was read) is q (what arrived) with some entries left out
+IsSubseq(r, q) == IF r = <<>> THEN TRUE ELSE IF q = <<>> THEN FALSE
+                  ELSE IF <<r[1].pid, r[1].len>> = q[1] THEN IsSubseq(Tail(r), Tail(q)) ELSE IsSubseq(r, Tail(q))
 C07_ReadOnlyKnown ==
   \A a \in Agents :
-     IF ev.ev = "DeliverData" /\ DataRcv = a /\ Unwire(ev.d.dst) \in Rng(pre[a].locals) /\ Known(pre, a, ev.d.src)
+     IF ev.ev = "DeliverData" /\ DataRcv = a /\ Unwire(ev.d.dst) \in Rng(pre[a].locals) /\ Known(pre, a, ev.d.src) /\ (~pre[a].paused \/ pgrace[a])
      THEN cur[a].rd = <<[pid |-> ev.d.pid, len |-> ev.d.len, intact |-> TRUE]>>
+     ELSE IF ev.ev = "ResumeRead" /\ ev.ag = a
+     THEN /\ \A k \in 1..Len(cur[a].rd) : cur[a].rd[k].intact
+          /\ IF HeldBytes(pheld[a]) <= 1000000
+             THEN Len(cur[a].rd) = Len(pheld[a]) /\ \A k \in 1..Len(pheld[a]) : <<cur[a].rd[k].pid, cur[a].rd[k].len>> = pheld[a][k]
+             ELSE /\ HeldBytes([k \in 1..Len(cur[a].rd) |-> <<cur[a].rd[k].pid, cur[a].rd[k].len>>]) <= 1000000
+                  /\ IsSubseq(cur[a].rd, pheld[a])
      ELSE cur[a].rd = <<>>
 \* data from a known source refreshes that source's liveness and nothing else; data from elsewhere changes nothing
 C07_DataInert ==
@@ -393,8 +414,9 @@ C07_DataInert ==
                               (ev.ev = "DeliverData" /\ DataRcv = a /\ r = ev.d.src /\ Known(pre, a, r))
 C07_ConnCounters == \A a \in Agents : cur[a].bsent = cur[a].tally[2] /\ cur[a].brecv = cur[a].tally[4]
 \* while one pair stays selected, its packet/byte counters advance exactly like the harness tallies
+\* (while the reader lags the pair has counted what the agent accepted and the reader has not returned yet: judged when it has caught up)
 C07_PairCounters ==
-  \A a \in Agents : (cur[a].sel # 0 /\ SelKeyOf(cur, a) = base[a].key /\ ev.ev # "Reset") =>
+  \A a \in Agents : (cur[a].sel # 0 /\ SelKeyOf(cur, a) = base[a].key /\ ev.ev # "Reset" /\ ~cur[a].paused) =>
      \A i \in 1..4 : cur[a].selCnt[i] - base[a].cnt[i] = cur[a].tally[i] - base[a].tally[i]
 \* ---------------------------------------------------------------- reporting
 \* Every violated predicate is printed with the trace line it was violated at; the invariant itself never
